@@ -636,8 +636,27 @@ func runE2E(rp Replay) (*Case, error) {
 				}
 			}
 			if len(missing) > 0 {
+				// With an open lower bound the negative events lost are explained by the open-lower-bound defect;
+				// what else is lost is classified with respect to the bound the server substitutes (0).
+				rest, wantRest := missing, want
+				lostNeg := false
+				if o1 == nil {
+					rest, wantRest = nil, nil
+					for _, ev := range missing {
+						if ev.ts < 0 {
+							lostNeg = true
+						} else {
+							rest = append(rest, ev)
+						}
+					}
+					for _, ev := range want {
+						if ev.ts >= 0 {
+							wantRest = append(wantRest, ev)
+						}
+					}
+				}
 				allNeg, allZero, allT1 := true, true, true
-				for _, ev := range missing {
+				for _, ev := range rest {
 					if ev.ts >= 0 {
 						allNeg = false
 					}
@@ -658,7 +677,7 @@ func runE2E(rp Replay) (*Case, error) {
 					}
 					chunkOf := func(seq int) int { return sort.Search(len(e.cnts), func(k int) bool { return st[k+1] > seq }) }
 					seenKept := map[int]bool{}
-					for _, ev := range want {
+					for _, ev := range wantRest {
 						c := chunkOf(ev.seq)
 						if gotSet[ev.seq] {
 							seenKept[c] = true
@@ -673,7 +692,7 @@ func runE2E(rp Replay) (*Case, error) {
 					cls = "range-incomplete-non-monotone-timestamps"
 				case pendingDropWrite:
 					cls = "range-incomplete-write-after-index-loss-before-rebuild"
-				case o1 == nil && allNeg:
+				case len(rest) == 0 && lostNeg:
 					cls = "range-incomplete-open-lower-bound-negative-ts"
 				case zeroFirst && allZero:
 					cls = "range-incomplete-batch-first-ts-zero"
